@@ -12,4 +12,5 @@ def run(tier):
         if tag == 'C08':
             reps.append(deductive.verify_function(rel2, q2, c2, hooks=XM.hooks(sites), prefix='%s::%s[update equations]' % (rel2, q2)))
     reps += infer.purity_reports()
+    reps.append(deductive.lemma_report(('bp-edge-calibration',), title='calibration across a tree edge, as a lemma over the verified message-step equations'))
     return reps
